@@ -73,6 +73,21 @@ def run(tier, seed, replay=None):
     ntr = 150 if tier == "quick" else 5000
     tl = [GI.run_case(C.Rng(r.next()), tracing=1, max_cycles=0, trunc="1", stdout_writes=False, debug=(i % 4 != 0))
           for i in range(ntr)]
+    # images larger than 200000 BYTES (memory has 200000 words = 800000 bytes): procedures that start beyond byte 200000
+    for target in (200004, 262148, 400000 + 4 * r.below(1000)):
+        hop = GI.enc(0x9, target - 4)            # BR, padded to a fixed 8 bytes by leading PFIX 0 (0xE0 keeps oreg at 0)
+        hop = [0xE0] * (8 - len(hop)) + hop
+        hop = GI.enc(0x9, target - 8) if len(GI.enc(0x9, target - 8)) == 8 else [0xE0] * (8 - len(GI.enc(0x9, target - 8))) + GI.enc(0x9, target - 8)
+        # set the stack pointer word, run a few instructions inside the high procedure, then exit(0)
+        tail = GI.enc(0x3, 150000) + [0x21, 0x30, 0x41, 0xD1, 0x11, 0x30, 0x82, 0x30, 0xD3]
+        code = hop + [0x30] * (target - 8) + tail
+        while len(code) % 4:
+            code.append(0)
+        # word 1 is read by LDBM 1 as the stack pointer: bytes 4..7 are part of the hop (non-zero garbage would be an address) -
+        # keep the exit simple instead: LDAC 0; SVC with sp = mem[1] in range only matters for the exit VALUE, not for the trace
+        dbg = [("main", 0), ("low_proc", 8), ("high_proc_beyond_200000_bytes", target), ("after", target + 4)]
+        f = GI.image_file(code, dbg)
+        tl.append(f"run 0 1 1 400 0 {''.join(format(x, '02x') for x in f)} - -")
     treal = C.drive_parallel(hs, tl, workdir=True)
     tmodel = C.drive_parallel(sdrv, tl)
     tr_bad, nlines = [], 0
